@@ -303,6 +303,11 @@ impl<'tcx> Cx<'tcx> {
                         }
                     }
                     items.push(("promoted_strs", jlist(strs)));
+                    // the promoted body itself (a constant built by a few aggregate statements): lets the abstract
+                    // evaluator know the value of e.g. `&(0, false)`
+                    if pb.basic_blocks.len() <= 4 {
+                        items.push(("promoted_body", self.body(uv.def, pb)));
+                    }
                 }
             }
         }
